@@ -118,6 +118,9 @@ class PythonMethodAnalyzer:  # thailint: ignore[srp]
         """
         if isinstance(item, ast.FunctionDef):
             self._check_method(item, class_name)
+            # classes defined inside a method body are analysed like any other class
+            for child in ast.iter_child_nodes(item):
+                self._visit_node(child)
         elif isinstance(item, ast.ClassDef):
             self._process_nested_class(item)
 
